@@ -694,3 +694,42 @@ def c14_merkleblock_large(opts):
     res = t.result()
     res["rejection_exception_types"] = reject_types
     return res
+
+
+# ----------------------------------------------------------------------------------------------------------------
+# the id must follow the header's current fields (no stale state across calls)
+# ----------------------------------------------------------------------------------------------------------------
+@bounded("C14.id_tracks_current_header", props=["C14"],
+         bound="seeded histories on one header object: ask hash()/id(), then change version / previous hash / merkle root / "
+               "time / bits / nonce by assignment or set_nonce, and ask again; quick 400 / thorough 4000 histories of 2..5 steps")
+def c14_id_history(opts):
+    rng = random.Random(opts["seed"] * 1000003 + 1499)
+    t = KTally(rule="one case = one history; after every step hash() == SHA256d of the reference 80-byte layout of the current "
+                    "fields and id() its reversed hex")
+    for h in range(400 if opts["tier"] == "quick" else 4000):
+        cls = rng.choice([BTC.block, LTC.block])
+        f = [rng.getrandbits(32), rand_h32(rng), rand_h32(rng), rng.getrandbits(32), rng.getrandbits(32), rng.getrandbits(32)]
+        b = cls(*f)
+        steps = []
+        ok = True
+        for step in range(rng.randrange(2, 6)):
+            want = sha256d(ref_header(b.version, b.previous_block_hash, b.merkle_root, b.timestamp, b.difficulty, b.nonce))
+            try:
+                got = (bytes(b.hash()), b.id())
+            except Exception as ex:
+                got = repr(ex)
+            if got != (want, want[::-1].hex()):
+                t.violation("hash()/id() of a header do not follow its current fields",
+                            {"history": steps, "got": str(got)[:200], "want": want[::-1].hex()}, finding_key="header-id-stale-or-wrong")
+                ok = False
+                break
+            op = rng.choice(["nonce", "set_nonce", "timestamp", "merkle_root", "version", "difficulty", "previous_block_hash"])
+            if op == "set_nonce":
+                b.set_nonce(rng.getrandbits(32))
+            elif op in ("merkle_root", "previous_block_hash"):
+                setattr(b, op, rand_h32(rng))
+            else:
+                setattr(b, op, rng.getrandbits(32))
+            steps.append(op)
+        t.case(("hist", h), nontrivial=ok and len(steps) >= 2, sample={"steps": steps})
+    return t.result()
